@@ -450,6 +450,8 @@ void LabeledUndirectedGraph<EdgeLabel>::removeVertexFromEdgeList(
                 ++j;
             }
     }
+    for (VertexIndex i : *this)
+        Directed::edgeLabels.erase(orderedEdge(vertex, i));
 }
 
 template <typename EdgeLabel>
